@@ -33,6 +33,11 @@ QUICK = [
      TRACEP - {"C14", "C15", "C16", "C20"}, False, None),
     ("n4stamp", "explore", ["exh", "n=4", "filter=eph2", "stride=3", "cmp=both", "levels=-/dbf1/-", "paths=1", "steps=0"],
      {"C15", "C16"}, False, None),
+    # production's input-name convention: lists of consumed output names, comparison restricted to
+    # them; each job with a consumer in turn is a two-output job, jobs gain / lose outputs (rename),
+    # also right after an interrupted evaluation
+    ("names3", "explore", ["exh", "n=3", "conv=names", "multi=1", "levels=-/dbrf1/dbrx", "steps=0"],
+     {"C01", "C03", "C04", "C09", "C18"}, True, None),
     ("big", "big", ["sizes=12,24,48,120,1200", "full=12"], {"C19"}, False, BIGPROPS),
 ]
 
@@ -51,6 +56,10 @@ THOROUGH = [
     ("eph5", "explore", ["exh", "n=5", "filter=eph5", "stride=5", "levels=-/dbf1/-", "paths=2", "steps=0"],
      TRACEP - {"C14", "C15", "C16", "C20"}, False, None),
     ("rnd6", "explore", ["random", "n=6", "count=400", "levels=f1/dbnef1/db", "paths=3", "steps=0"], TRACEP - {"C15", "C16", "C20"}, False, None),
+    ("names3", "explore", ["exh", "n=3", "conv=names", "multi=1", "levels=f1/dbnerf1a/dbrx"],
+     {"C01", "C03", "C04", "C06", "C08", "C09", "C11", "C12", "C18"}, True, None),
+    ("names4", "explore", ["exh", "n=4", "conv=names", "multi=1", "filter=eph2", "levels=-/dbrf1/rx", "paths=2", "steps=0"],
+     {"C01", "C03", "C04", "C09", "C18"}, False, None),
     ("big", "big", ["sizes=12,24,48,120,1200,12000", "full=48"], {"C19"}, False, BIGPROPS),
 ]
 
@@ -62,7 +71,7 @@ def table(tier):
 # families whose every recorded transition is also compared with the model PPGEngine (strict
 # conformance, reported as DRIFT): all of them in the thorough tier, the exhaustive 3-job ones in
 # the quick tier
-QUICK_STRICT = {"n3", "n3m", "n3uses", "n3stamp", "n3flaky", "n3decl"}
+QUICK_STRICT = {"n3", "n3m", "n3uses", "n3stamp", "n3flaky", "n3decl", "names3"}
 
 
 def for_property(prop, tier):
